@@ -1,5 +1,6 @@
 """C06 — merge/union is equivalent to having processed both streams (lattice census, guards, transfer loops)."""
 from ..paths import PathEnumerator
+from ..guards import fv
 from ..terms import TermBuilder, fmt, mk, const, subterms, elem_of, erase_param_names, swap_self_other
 from .common import (SELF, self_field, methods_of, has_self_receiver, all_writes, rng_fields, config_fields, symmetric_guards,
                      fields_mentioned, INTERIOR_MUT, loop_exits_only_on_exhaustion)
@@ -87,6 +88,13 @@ def run(ctx):
                     continue
                 n += 1
                 cls, desc = classify_write(adt, field, w, ctx)
+                if (cls is None or (isinstance(cls, str) and cls.startswith("other"))) and w["how"] == "store":
+                    from .common import join_store, elementwise_reset
+                    js = join_store(ctx, m, field)
+                    if js["form"] == "guarded-max":
+                        cls, desc = "max", "if old < new { cell = new }"
+                    elif elementwise_reset(ctx, m, field):
+                        cls, desc = "reset", "in-place zero fill over iter_mut()"
                 if isinstance(cls, tuple):
                     cls, desc = cls
                 okc = cls in (want, "reset")
@@ -180,7 +188,7 @@ def run(ctx):
             f_t = ("elem", ("field", otherp, "table"))
             from ..guards import atomic_facts
             facts = {repr(c): tr for c, tr in atomic_facts(cu, prog, bi, tb)}
-            nonzero = facts.get(repr(mk("Ne", f_t, const(0)))) is True or facts.get(repr(mk("Eq", f_t, const(0)))) is False
+            nonzero = fv(facts, mk("Ne", f_t, const(0))) is True or fv(facts, mk("Eq", f_t, const(0))) is False
             i1 = a[2]
             i2_ok = a[3] == mk("BitXor", i1, ("call", CF + "::hash", (otherp, f_t))) or a[3] == mk("BitXor", i1, ("call", CF + "::hash", (("param", 1, "self"), f_t)))
             okc = a[1] == f_t and nonzero and i2_ok
@@ -199,7 +207,7 @@ def run(ctx):
                     for si, st in enumerate(blk.stmts):
                         if st.k == "assign" and st.place.is_local() and st.place.local == lv[0][1] and bj in cu.natural_loop(h):
                             fs = {repr(c): tr for c, tr in atomic_facts(cu, prog, bj, tb)}
-                            gd = fs.get(repr(mk("Eq", mk("Rem", cnt, ("field", otherp, "bucketsize")), const(0)))) is True and fs.get(repr(mk("Lt", const(0), cnt))) is True
+                            gd = fv(fs, mk("Eq", mk("Rem", cnt, ("field", otherp, "bucketsize")), const(0))) is True and fv(fs, mk("Lt", const(0), cnt)) is True
                 okc = inc_ok and gd and loop_exits_only_on_exhaustion_or_err(cu, h)
                 why = "bucket counter init=%s update=%s guard-ok=%s" % (fmt(init), fmt(upd), gd)
             elif okc:
@@ -211,42 +219,68 @@ def run(ctx):
     # ---- R06-quotient-transfer --------------------------------------------------------------------
     qu = ctx.anchor("<%s as filters::Filter[T]>::union" % QF)
     if qu is not None:
-        tb = TermBuilder(qu, prog)
+        # the transfer loop may live in a private helper that union hands (self, other) to
+        bodies = [qu]
+        tbu = TermBuilder(qu, prog)
+        for bi, t in qu.calls():
+            if t.callee_is_local() and t.callee_name() not in ("insert_internal", "scan", "bits_remainder", "incr", "decr") and prog.fn(t.callee()) is not None:
+                a = [tbu.operand(x, bi, len(qu.blocks[bi].stmts)) for x in t.args]
+                if len(a) >= 2 and a[0][:2] == ("param", 1) and a[1][:2] == ("param", 2):
+                    bodies.append(prog.fn(t.callee()))
+                    ctx.analysed_fns.add(t.callee())
         otherp = ("param", 2, "other")
-        calls = [(bi, t) for bi, t in qu.calls() if t.callee_name() == "insert_internal"]
+        calls = []
+        for body_fn in bodies:
+            tbb = TermBuilder(body_fn, prog)
+            for bi, t in body_fn.calls():
+                if t.callee_name() == "insert_internal":
+                    calls.append((body_fn, tbb, bi, t))
         probs = []
-        for bi, t in calls:
-            a = [tb.operand(x, bi, len(qu.blocks[bi].stmts)) for x in t.args]
+        for body_fn, tb, bi, t in calls:
+            a = [tb.operand(x, bi, len(body_fn.blocks[bi].stmts)) for x in t.args]
             rem = a[2]
             if not (rem[0] == "call" and rem[1].endswith("::get") and rem[2][0] == ("field", otherp, "remainders")):
                 probs.append("remainder argument %s is not read from other.remainders" % fmt(rem))
-        fifo_discipline(ctx, qu)
+        fifo_discipline(ctx, bodies)
         ctx.check(len(calls) == 2 and not probs, "R06-quotient-transfer", qu.key, qu, "both re-insertion sites take the remainder from other.remainders at the slot being visited",
                   "; ".join(probs) or "%d insert_internal call sites (expected 2)" % len(calls))
 
 
-def fifo_discipline(ctx, qu):
+def fifo_discipline(ctx, bodies):
     """R06-quotient-fifo: every VecDeque local of quotient union is used as a queue: entries enter at one end and leave
     at the other (push_back/pop_front or push_front/pop_back); anything else reorders the pending run quotients."""
     ops = {}
-    for bi, t in qu.calls():
-        d = t.callee_decl() or ""
-        if d.startswith("std::collections::VecDeque::") and t.args and t.args[0].place is not None:
+    qu = bodies[0]
+    INS = {"push_back", "push_front", "push", "insert", "extend"}
+    REM = {"pop_back", "pop_front", "pop", "pop_first", "pop_last", "remove", "swap_remove", "take", "drain"}
+    OTHER = {"swap", "rotate_left", "rotate_right", "make_contiguous", "retain", "truncate", "sort", "reverse"}
+    for body_fn in bodies:
+        from ..paths import Origins
+        org = Origins(body_fn)
+        for bi, t in body_fn.calls():
+            d = t.callee_decl() or ""
+            if not (d.startswith("std::collections::") or d.startswith("std::vec::Vec::")) or not t.args or t.args[0].place is None or not t.args[0].place.is_local():
+                continue
             nm = t.callee_name()
-            if nm in ("push_back", "push_front", "pop_back", "pop_front", "insert", "remove", "swap", "rotate_left", "rotate_right", "make_contiguous", "retain", "truncate"):
-                from ..paths import Origins
-                o = Origins(qu).of_local(t.args[0].place.local)
-                key = repr(o) if o is not None else "?"
-                ops.setdefault(key, []).append((nm, t.span))
+            if nm not in INS | REM | OTHER:
+                continue
+            o = org.of_local(t.args[0].place.local)
+            if o is None or o.root[0] != "local":
+                continue   # containers of self / other are not the pending queue
+            key = body_fn.key + ":" + repr(o)
+            ops.setdefault(key, []).append((nm, d.split("::")[2] if d.count("::") >= 3 else d, t.span))
     n = 0
     for key, lst in sorted(ops.items()):
-        n += 1
         names = {x[0] for x in lst}
-        good = names in ({"push_back", "pop_front"}, {"push_front", "pop_back"})
-        ctx.check(good, "R06-quotient-fifo", "%s:%s" % (qu.key, "pending-quotients"), lst[-1][1],
-                  "pending run quotients are queued and dequeued first-in first-out (%s)" % sorted(names),
-                  "the queue of pending run quotients is used with %s: runs of a cluster are re-inserted under the wrong quotient unless entries leave in the order they entered" % sorted(names))
-    ctx.floor("R06-quotient-fifo", n, 1, "VecDeque queues in quotient union")
+        if not (names & INS and names & REM):
+            continue   # a log or scratch buffer, not a queue that is both filled and drained
+        n += 1
+        kinds = {x[1] for x in lst}
+        good = kinds == {"VecDeque"} and names in ({"push_back", "pop_front"}, {"push_front", "pop_back"})
+        ctx.check(good, "R06-quotient-fifo", "%s:%s" % (qu.key, "pending-quotients"), lst[-1][2],
+                  "pending run quotients are queued and dequeued first-in first-out (%s on %s)" % (sorted(names), sorted(kinds)),
+                  "the pending run quotients are kept in a %s used with %s: runs of a cluster are re-inserted under the wrong quotient unless entries leave in the order they entered (ring order is not numeric order when a cluster wraps)" % ("/".join(sorted(kinds)), sorted(names)))
+    ctx.floor("R06-quotient-fifo", n, 1, "queues of pending run quotients in quotient union")
 
 
 def loop_exits_only_on_exhaustion_or_err(fn, head):
